@@ -244,26 +244,16 @@ class NetCDFWrite(IOWrite):
                 netcdf_attrs[attr] = np.array(netcdf_attrs[attr], dtype=dtype)
 
         skip_set_fill_value = False
-        if g["post_dry_run"] and parent is not None:
-            # Manage possibly pre-existing fill values:
-            data = self.implementation.get_data(parent, None)
-            if data is not None:
-                # Check if there is already a fill value applied to the data,
-                # and if so, that it is compatible with the one set to be set:
-                if data.has_fill_value() and "_FillValue" in netcdf_attrs:
-                    if data.get_fill_value() == netcdf_attrs["_FillValue"]:
-                        # The fill value to be set is the same as the one
-                        # that already applies to the already-set data,
-                        # so we should not (and indeed can't) set it again.
-                        skip_set_fill_value = True
-                    else:  # can't have incompatible FV to the existing data
-                        raise ValueError(
-                            "Cannot set an incompatible fill value on "
-                            "data with a fill value already defined."
-                        )
-
-            if skip_set_fill_value and "_FillValue" in netcdf_attrs:
-                del netcdf_attrs["_FillValue"]
+        if (
+            g["post_dry_run"]
+            and parent is not None
+            and "_FillValue" in netcdf_attrs
+        ):
+            # When appending, the _FillValue was defined when the
+            # netCDF variable was created, so we should not (and
+            # indeed can't) set it again.
+            skip_set_fill_value = True
+            fill_value = netcdf_attrs.pop("_FillValue")
 
         if not g["dry_run"]:
             attrs = netcdf_attrs
@@ -281,9 +271,7 @@ class NetCDFWrite(IOWrite):
 
         if skip_set_fill_value:
             # Re-add as known attribute since this FV is already set
-            netcdf_attrs["_FillValue"] = self.implementation.get_data(
-                parent, None
-            ).get_fill_value()
+            netcdf_attrs["_FillValue"] = fill_value
 
         return netcdf_attrs
 
